@@ -842,6 +842,13 @@ def run(ctx: Ctx, rep: Report, tier: str) -> None:
     sub = Report("C03")
     setter_completeness(ctx, sub)
     rep.absorb(sub, "R03.10")
+    # R03.13 premise: the port sets the cover tests compare are the sets the operators denote (all C08 rules: a range
+    # that loses port 65535 makes `range 1024 65535` both cover less and be covered by less)
+    from . import c08
+
+    sub8 = Report("C03")
+    c08.run(ctx, sub8, tier)
+    rep.absorb(sub8, "R03.13")
 
 
 def flags_rule(ctx: Ctx, rep: Report, h: Func) -> None:
